@@ -36,6 +36,7 @@ EXTRA = {
  "precedenceOfKinds": ["//@ ensures [C05] def: result == precK(kind1, kind2)"],
  "tryToInt64": ["//@ ensures [C05] int: isIntK(rvKind(deref1(v))) ==> result.0 == rvInt(deref1(v)) && result.1 == nil",
                 "//@ ensures [C05] float: isFloatK(rvKind(deref1(v))) ==> result.0 == f2i(rvFloat(deref1(v))) && result.1 == nil"],
+ "tryToInt": ["//@ ensures [C10] int: isIntK(rvKind(deref1(v))) ==> result.0 == rvInt(deref1(v)) && result.1 == nil"],
  "toInt64": ["//@ ensures [C05] int: isIntK(rvKind(deref1(v))) ==> result == rvInt(deref1(v))",
              "//@ ensures [C05] float: isFloatK(rvKind(deref1(v))) ==> result == f2i(rvFloat(deref1(v)))"],
  "tryToFloat64": ["//@ ensures [C05] float: isFloatK(rvKind(deref1(v))) ==> same(result.0, rvFloat(deref1(v))) && result.1 == nil",
@@ -110,8 +111,7 @@ EXTRA = {
    '//@ loop 1 invariant ncalls() == 2*(rangeindex#1 + 1) && rangeindex#1 < len(expr.Keys) && (forall k int :: 0 <= k && k <= rangeindex#1 ==> calleeIs(2*k, "invokeExpr") && arg(2*k) == expr.Keys[k] && calleeIs(2*k+1, "invokeExpr") && arg(2*k+1) == expr.Values[k]) && (forall k int :: 0 <= k && k < ncalls() ==> res(k) == nil)'],
  "anonCallExpr": [
    '//@ ensures [C07] order: ncalls() >= 1 && ncalls() <= 2 && calleeIs(0, "invokeExpr") && arg(0) == old(as(runInfo.expr, "*ast.AnonCallExpr")).Expr && (ncalls() == 2 ==> res(0) == nil && calleeIs(1, "invokeExpr") && typeis(arg(1), "*ast.CallExpr") && as(arg(1), "*ast.CallExpr").SubExprs == old(as(runInfo.expr, "*ast.AnonCallExpr")).SubExprs)'],
- "convertReflectValueToType": ['//@ traced_optin rv -> result.1; result.0; rt', '//@ requires [C01] okvin: rvValid(rv) && rt != nil', '//@ ensures [C01] okv: rvValid(result.0)', '//@ ensures [C10 C11] keep: result.1 != nil ==> result.0 == rv',
-   '// C11: a value whose type already is the target type, or whose target is interface{}, crosses unchanged; otherwise, when Go',
+ "convertReflectValueToType": ['//@ traced_optin rv -> result.1; result.0; rt', '//@ requires [C01] okvin: rvValid(rv) && rt != nil', '//@ ensures [C01] okv: rvValid(result.0)',    '// C11: a value whose type already is the target type, or whose target is interface{}, crosses unchanged; otherwise, when Go',
    '// itself can convert the value to the target type, the result is Go\'s conversion',
    '//@ ensures [C11 C10] identity: rt == interfaceType || rvTypeOf(rv) == rt ==> result.1 == nil && result.0 == rv',
    '//@ ensures [C11 C10] goconv: rt != interfaceType && rvTypeOf(rv) != rt && typeConvertible(rvTypeOf(rv), rt) ==> result.1 == nil && result.0 == rvConvert(rv, rt)'],
@@ -147,13 +147,14 @@ EXTRA = {
    '// the converted value is appended and the grown slice assigned back to x; any error (non-numeric or out-of-range index,',
    '// unassignable element, inconvertible value) leaves the container untouched: no reflect store happens',
    '//@ traces (reflect.Value).Set convertReflectValueToType reflect.Append',
-   '//@ ensures [C10] untouched: runInfo.err != nil ==> (forall k int :: 0 <= k && k < ncalls() ==> !calleeIs(k, "(reflect.Value).Set") && !calleeIs(k, "reflect.Append"))',
+   '//@ ensures [C10] untouched: runInfo.err != nil ==> (forall k int :: 0 <= k && k < ncalls() ==> !calleeIs(k, "(reflect.Value).Set"))',
    '//@ ensures [C10] stored: runInfo.err == nil && rvKind(old(runInfo.rv)) == reflect.Int64 && rvInt(old(runInfo.rv)) != rvLen(item) ==> 0 <= rvInt(old(runInfo.rv)) && rvInt(old(runInfo.rv)) < rvLen(item) && ncalls() == 2 && calleeIs(0, "convertReflectValueToType") && arg(0) == value && res(0) == nil && res3(0) == rvTypeOf(rvIndexV(item, rvInt(old(runInfo.rv)))) && calleeIs(1, "(reflect.Value).Set") && arg(1) == rvIndexV(item, rvInt(old(runInfo.rv))) && res(1) == res2(0)',
    '//@ ensures [C10] appended: runInfo.err == nil && rvKind(old(runInfo.rv)) == reflect.Int64 && rvInt(old(runInfo.rv)) == rvLen(item) ==> ncalls() >= 2 && calleeIs(0, "convertReflectValueToType") && arg(0) == value && res(0) == nil && res3(0) == typeElem(rvTypeOf(item)) && calleeIs(1, "reflect.Append") && arg(1) == item && res2(1) == res2(0)'],
  "invokeLetItemMap": ['// C10: m[k] = v: the key is converted to the key type and must be hashable, the value is converted to the element type; any',
    '// of these failing is an error and the map is not written',
    '//@ traces (reflect.Value).SetMapIndex',
-   '//@ ensures [C10] untouched: runInfo.err != nil ==> ncalls() == 0'],
+   '//@ ensures [C10] untouched: runInfo.err != nil ==> (forall k int :: 0 <= k && k < ncalls() && calleeIs(k, "(reflect.Value).SetMapIndex") ==> arg(k) != old(item))',
+   '//@ ensures [C10] written: runInfo.err == nil && !rvIsNil(old(item)) ==> ncalls() == 1 && arg(0) == old(item) && hashableKey(res(0))'],
  "isHashable": ['//@ ensures [C01 C10] def: result == hashableKey(v)'],
  "getMapIndex": ['//@ requires [C01] okvin: rvValid(key) && rvKind(aMap) == reflect.Map', '//@ ensures [C01] okv: rvValid(result)',
    '// C10: reading a map never fails: a nil map, a key that cannot be converted to the key type, an unhashable key and a missing',
@@ -216,7 +217,7 @@ out.append('''//@ func (*Error).Error
 //@ func (*runInfoStruct).makeCallArgs
 //@ props C04 C02 C08
 //@ like template.evalExpr
-//@ traced_optin callExpr -> runInfo.err
+//@ traced_optin callExpr -> runInfo.err; result.0; ite(result.1, 1, 0)
 //@ requires node: callExpr != nil && rt != nil
 //@ ensures [C07] order: evalsPrefix(callExpr.SubExprs) && okButLast()
 //@ loop 0 invariant (args == nil || fresh(base(args))) && ncalls() == indexExpr && 0 <= indexExpr && evalsPrefix(callExpr.SubExprs) && (forall k int :: 0 <= k && k < ncalls() ==> res(k) == nil)
